@@ -72,6 +72,18 @@ End KeyedLemmas.
 Lemma flat_map_nil {A B} (f:A -> list B) l : (forall x, In x l -> f x = []) -> flat_map f l = [].
 Proof. induction l as [|a l IH]; simpl; auto. intros H. rewrite (H a), IH; auto. Qed.
 
+Lemma flat_map_map {A B C} (f:B -> list C) (g:A -> B) l : flat_map f (map g l) = flat_map (fun x => f (g x)) l.
+Proof. induction l; simpl; congruence. Qed.
+Section KeyedMap.
+  Context {A:Type} (key:A->N) (r:A->A) (Hr: forall a, key (r a) = key a).
+  Lemma keys_map l : keys key (map r l) = keys key l.
+  Proof. unfold keys. rewrite map_map. apply map_ext. auto. Qed.
+  Lemma kfind_map n l : kfind key n (map r l) = option_map r (kfind key n l).
+  Proof. unfold kfind. induction l as [|a l IH]; simpl; auto. rewrite Hr. destruct (N.eqb (key a) n); auto. Qed.
+  Lemma ksel_map n l : ksel key n (map r l) = map r (ksel key n l).
+  Proof. unfold ksel. induction l as [|a l IH]; simpl; auto. rewrite Hr. destruct (N.eqb (key a) n); simpl; congruence. Qed.
+End KeyedMap.
+
 (* ================================================================ folds seen through one key *)
 Section Run.
   Context {O St : Type} (step : O -> St -> St).
@@ -108,7 +120,7 @@ Definition cstep (n:N) (o:op) (s:list col) : list col :=
   match o with
   | OpAddColumn _ c => s ++ (if N.eqb (c_name c) n then [c] else [])
   | OpDropColumn _ m => if N.eqb m n then [] else s
-  | OpAlterColumn _ m _ _ mn mt => if N.eqb m n then map (alter_col mn mt) s else s
+  | OpAlterColumn _ m _ _ _ mn mt md => if N.eqb m n then map (alter_col mn mt md) s else s
   | _ => s
   end.
 Definition kstep (n:N) (o:op) (s:list cons) : list cons :=
@@ -156,6 +168,8 @@ Lemma cols_run_top L t : t_cols (run apply_top L t) = run apply_cop L (t_cols t)
 Proof. apply (run_proj apply_top apply_cop t_cols). reflexivity. Qed.
 Lemma cons_run_top L t : t_cons (run apply_top L t) = run apply_kop L (t_cons t).
 Proof. apply (run_proj apply_top apply_kop t_cons). reflexivity. Qed.
+Lemma fks_run_top L t : t_fks (run apply_top L t) = run apply_fop L (t_fks t).
+Proof. apply (run_proj apply_top apply_fop t_fks). reflexivity. Qed.
 Lemma name_run_top L t : t_name (run apply_top L t) = t_name t.
 Proof. revert t; induction L as [|o L IH]; intros t; simpl; auto. unfold run in *. simpl. rewrite IH. reflexivity. Qed.
 
@@ -170,64 +184,167 @@ Lemma impl_compare_type_refl t : impl_compare_type t t = false.
 Proof. unfold impl_compare_type, column_types_match, column_args_match. rewrite N.eqb_refl, Nat.eqb_refl, list_eqbN_refl. reflexivity. Qed.
 Lemma ctx_compare_type_refl g t : ctx_compare_type g t t = false.
 Proof. unfold ctx_compare_type. rewrite impl_compare_type_refl. destruct (compare_type g); auto. Qed.
-Lemma alter_col_none c : alter_col None None c = c.
+Lemma alter_col_none c : alter_col None None None c = c.
 Proof. destruct c; reflexivity. Qed.
 
-(* the column that an AlterColumnOp of the comparison leaves behind *)
-Definition alter_fix (g:cfg) (cc mc:col) : col := alter_col (compare_nullable cc mc) (compare_type_col g cc mc) cc.
+(* ================================================================ strings: server default normalisation *)
+Lemma wrapped_intro a b p : p <> [] -> wrapped a b (a :: p ++ [b]) = true.
+Proof. intros Hp. unfold wrapped. rewrite N.eqb_refl, last_last, N.eqb_refl. simpl. rewrite app_length. simpl.
+  destruct p; [congruence|]. simpl. rewrite Nat.add_comm. reflexivity. Qed.
+Lemma unwrap_intro a b p : unwrap (a :: p ++ [b]) = p.
+Proof. unfold unwrap. simpl. apply removelast_last. Qed.
+Lemma wrapped_hd a b s : N.eqb (hd 0%N s) a = false -> wrapped a b s = false.
+Proof. destruct s; simpl; auto. intros ->. reflexivity. Qed.
+Lemma wrapped_elim a b s : wrapped a b s = true -> s = a :: unwrap s ++ [b] /\ unwrap s <> [].
+Proof. destruct s as [|x r]; simpl; [congruence|]. rewrite !andb_true_iff, !N.eqb_eq. intros [[-> Hl] Hn].
+  unfold unwrap. simpl. destruct r as [|y r']; [simpl in Hn; congruence|]. destruct r' as [|z r'']; [simpl in Hn; congruence|].
+  split.
+  - f_equal. rewrite <- Hl. apply app_removelast_last. congruence.
+  - simpl. congruence. Qed.
 
-Lemma alter_column_fix g tn cc mc : alter_column g tn (alter_fix g cc mc) mc = [].
-Proof. unfold alter_column, alter_fix, alter_col, compare_nullable, compare_type_col. simpl.
-  destruct (Bool.eqb (c_null cc) (c_null mc)) eqn:En; simpl.
-  - rewrite En. destruct (ctx_compare_type g (c_ty cc) (c_ty mc)) eqn:Et; simpl.
-    + rewrite ctx_compare_type_refl. auto.
-    + rewrite Et. auto.
-  - rewrite eqb_reflx. destruct (ctx_compare_type g (c_ty cc) (c_ty mc)) eqn:Et; simpl.
-    + rewrite ctx_compare_type_refl. auto.
-    + rewrite Et. auto. Qed.
-Lemma alter_column_refl g tn c : alter_column g tn c c = [].
-Proof. unfold alter_column, compare_nullable, compare_type_col. rewrite eqb_reflx, ctx_compare_type_refl. auto. Qed.
+Lemma plain_hd s : plain s = true -> plain_char (hd 0%N s) = true /\ s <> [].
+Proof. destruct s; simpl; [congruence|]. rewrite andb_true_iff. intros [H _]. split; auto. congruence. Qed.
+Lemma plain_char_neq x : plain_char x = true ->
+  N.eqb x ch_quote = false /\ N.eqb x ch_dquote = false /\ N.eqb x ch_lpar = false /\ N.eqb x ch_rpar = false.
+Proof. unfold plain_char. rewrite negb_true_iff, !orb_false_iff. tauto. Qed.
+Lemma dbl_quotes_plain s : forallb plain_char s = true -> dbl_quotes s = s.
+Proof. induction s as [|x r IH]; simpl; auto. rewrite andb_true_iff. intros [Hx Hr]. apply plain_char_neq in Hx.
+  destruct Hx as [-> _]. rewrite IH; auto. Qed.
+
+Lemma strip_quotes_plain s : plain s = true -> strip_quotes s = s.
+Proof. intros H. destruct s as [|x [|y r]]; auto. apply plain_hd in H. destruct H as [H _]. simpl in H. apply plain_char_neq in H.
+  destruct H as [H1 [H2 _]]. unfold strip_quotes. rewrite H1, H2. reflexivity. Qed.
+Lemma strip_parens_plain s : plain s = true -> strip_parens s = s.
+Proof. intros H. unfold strip_parens. rewrite wrapped_hd; auto. apply plain_hd in H. destruct H as [H _]. apply plain_char_neq in H. tauto. Qed.
+Lemma norm_plain s : plain s = true -> norm_default s = s.
+Proof. intros H. unfold norm_default. rewrite strip_parens_plain, strip_quotes_plain; auto. Qed.
+Lemma norm_paren p : plain p = true -> norm_default (ch_lpar :: p ++ [ch_rpar]) = p.
+Proof. intros H. unfold norm_default, strip_parens. destruct (plain_hd _ H) as [_ Hne].
+  rewrite wrapped_intro, unwrap_intro; auto. apply strip_quotes_plain; auto. Qed.
+Lemma strip_quotes_quoted p : p <> [] -> strip_quotes (ch_quote :: p ++ [ch_quote]) = p.
+Proof. intros Hne. destruct p as [|y r]; [congruence|]. unfold strip_quotes.
+  rewrite <- app_comm_cons.
+  replace (N.eqb ch_quote ch_dquote) with false by reflexivity. replace (N.eqb ch_quote ch_quote) with true by reflexivity.
+  cbn [andb]. rewrite app_comm_cons, last_last, removelast_last. replace (N.eqb ch_quote ch_quote) with true by reflexivity.
+  reflexivity. Qed.
+Lemma norm_quoted p : p <> [] -> norm_default (ch_quote :: p ++ [ch_quote]) = p.
+Proof. intros Hne. unfold norm_default, strip_parens. rewrite wrapped_hd; [|reflexivity]. apply strip_quotes_quoted; auto. Qed.
+
+Lemma guess_quoted p : p <> [] -> guess_if_default_is_unparenthesized_sql_expr (ch_quote :: p ++ [ch_quote]) = false.
+Proof. intros Hne. destruct p as [|x r]; [congruence|]. unfold guess_if_default_is_unparenthesized_sql_expr.
+  rewrite <- app_comm_cons. rewrite app_comm_cons, wrapped_intro; auto; try congruence. Qed.
+
+(* the reflected form of a default of the covered class normalises like the default itself *)
+Lemma default_quiet d : dflt_ok d = true -> norm_default (d_txt (reflect_default d)) = norm_default (d_txt d).
+Proof. destruct d as [s|s]; simpl; intros H.
+  - (* Python string *) unfold autogen_column_reflect. destruct (plain_hd _ H) as [_ Hne].
+    assert (Hf: forallb plain_char s = true) by (destruct s; [congruence|exact H]).
+    rewrite dbl_quotes_plain; auto.
+    assert (Hg: guess_if_default_is_unparenthesized_sql_expr (ch_quote :: s ++ [ch_quote]) = false) by (apply guess_quoted; auto).
+    rewrite Hg, norm_quoted, norm_plain; auto.
+  - (* text() *) rewrite !orb_true_iff, !andb_true_iff in H. unfold autogen_column_reflect. destruct H as [[[Hp _]|[Hw Hp]]|[[Hw Hp] _]].
+    + rewrite wrapped_hd. 2:{ apply plain_hd in Hp. destruct Hp as [Hp _]. apply plain_char_neq in Hp. tauto. }
+      destruct (guess_if_default_is_unparenthesized_sql_expr s); auto. rewrite norm_paren, norm_plain; auto.
+    + apply wrapped_elim in Hw. destruct Hw as [Hs Hne].
+      assert (Hwl: wrapped ch_lpar ch_rpar s = false) by (rewrite Hs; apply wrapped_hd; reflexivity).
+      assert (Hg: guess_if_default_is_unparenthesized_sql_expr s = false) by (rewrite Hs; apply guess_quoted; auto).
+      rewrite Hwl, Hg. reflexivity.
+    + pose proof Hw as Hw'. apply wrapped_elim in Hw'. destruct Hw' as [Hs Hne]. rewrite Hw.
+      assert (Hn: norm_default s = unwrap s) by (rewrite Hs at 1; apply norm_paren; auto). rewrite Hn.
+      destruct (guess_if_default_is_unparenthesized_sql_expr (unwrap s)); [apply norm_paren|apply norm_plain]; auto.
+Qed.
+
+Lemma list_eqbN_refl' l : list_eqb N.eqb l l = true. Proof. apply list_eqbN_refl. Qed.
+
+Definition dok_col (c:col) : Prop := match c_default c with Some d => dflt_ok d = true | None => True end.
+
+Lemma csd_quiet g c : dok_col c -> compare_server_default_col g (reflect_col c) c = None.
+Proof. unfold dok_col, compare_server_default_col. cbn [reflect_col c_default]. destruct (c_default c) as [d|]; cbn [option_map]; auto.
+  intros H. unfold ctx_compare_server_default, sqlite_compare_server_default. cbn [option_map opt_eqb].
+  rewrite default_quiet, list_eqbN_refl; auto. destruct (compare_server_default g); auto. Qed.
+
+(* the column that an AlterColumnOp of the comparison (database column cc, seen as reflect_col cc) leaves behind *)
+Definition alter_fix (g:cfg) (cc mc:col) : col :=
+  alter_col (compare_nullable (reflect_col cc) mc) (compare_type_col g (reflect_col cc) mc)
+            (compare_server_default_col g (reflect_col cc) mc) cc.
+
+Lemma csd_ext g a b mc : c_default a = c_default b -> compare_server_default_col g a mc = compare_server_default_col g b mc.
+Proof. unfold compare_server_default_col. intros ->. auto. Qed.
+Lemma csd_some g rc mc d : compare_server_default_col g rc mc = Some d -> d = c_default mc.
+Proof. unfold compare_server_default_col. destruct (c_default rc), (c_default mc); try congruence;
+    destruct (ctx_compare_server_default _ _ _); congruence. Qed.
+
+Lemma alter_column_nil g tn rc mc :
+  compare_nullable rc mc = None -> compare_type_col g rc mc = None -> compare_server_default_col g rc mc = None ->
+  alter_column g tn rc mc = [].
+Proof. unfold alter_column. intros -> -> ->. auto. Qed.
+
+Lemma alter_column_fix g tn cc mc : dok_col mc -> alter_column g tn (reflect_col (alter_fix g cc mc)) mc = [].
+Proof. intros Hok. apply alter_column_nil.
+  - unfold alter_fix, alter_col, compare_nullable. simpl.
+    destruct (Bool.eqb (c_null cc) (c_null mc)) eqn:En; simpl; [rewrite En|rewrite eqb_reflx]; auto.
+  - unfold alter_fix, alter_col, compare_type_col. simpl.
+    destruct (ctx_compare_type g (c_ty cc) (c_ty mc)) eqn:Et; simpl; [rewrite ctx_compare_type_refl|rewrite Et]; auto.
+  - destruct (compare_server_default_col g (reflect_col cc) mc) as [d|] eqn:Ed.
+    + pose proof (csd_some _ _ _ _ Ed) as Hd. rewrite (csd_ext g (reflect_col (alter_fix g cc mc)) (reflect_col mc) mc).
+      * apply csd_quiet; auto.
+      * unfold alter_fix, alter_col. cbn [reflect_col c_default]. rewrite Ed, Hd. reflexivity.
+    + rewrite (csd_ext g (reflect_col (alter_fix g cc mc)) (reflect_col cc) mc); auto.
+      unfold alter_fix, alter_col. cbn [reflect_col c_default]. rewrite Ed. reflexivity.
+Qed.
+Lemma alter_column_refl g tn c : dok_col c -> alter_column g tn (reflect_col c) c = [].
+Proof. intros Hok. apply alter_column_nil.
+  - unfold compare_nullable. simpl. rewrite eqb_reflx. auto.
+  - unfold compare_type_col. simpl. rewrite ctx_compare_type_refl. auto.
+  - apply csd_quiet; auto. Qed.
 
 (* what alter_column's output does to the column it is about *)
-Lemma run_alter_column g tn n cc mc : c_name mc = n ->
-  run (cstep n) (alter_column g tn cc mc) [cc] = [alter_fix g cc mc].
-Proof. intros Hn. unfold alter_column, alter_fix.
-  destruct (compare_nullable cc mc) eqn:E1; destruct (compare_type_col g cc mc) eqn:E2; simpl;
-    rewrite ?Hn, ?N.eqb_refl; simpl; auto. rewrite alter_col_none. auto. Qed.
+Lemma run_alter_column g tn n rc cc mc : c_name mc = n ->
+  run (cstep n) (alter_column g tn rc mc) [cc] =
+  [alter_col (compare_nullable rc mc) (compare_type_col g rc mc) (compare_server_default_col g rc mc) cc].
+Proof. intros Hn. unfold alter_column.
+  destruct (compare_nullable rc mc) eqn:E1; destruct (compare_type_col g rc mc) eqn:E2; destruct (compare_server_default_col g rc mc) eqn:E3;
+    simpl; rewrite ?Hn, ?N.eqb_refl; simpl; auto. rewrite alter_col_none. auto. Qed.
 
 (* ================================================================ columns: one pass fixes them *)
 Definition cstep_id (K:list op) : Prop := forall o, In o K -> forall n s, cstep n o s = s.
 Definition kstep_id (K:list op) : Prop := forall o, In o K -> forall n s, kstep n o s = s.
 
+Lemma reflect_col_name c : c_name (reflect_col c) = c_name c. Proof. reflexivity. Qed.
+
 Lemma cols_after g tn c m K n :
   NoDup (keys c_name (t_cols c)) -> NoDup (keys c_name (t_cols m)) -> cstep_id K ->
-  ksel c_name n (run apply_cop (compare_columns_pre g tn c m ++ K ++ compare_columns_post tn c m) (t_cols c)) =
+  ksel c_name n (run apply_cop (compare_columns_pre g tn (reflect_table c) m ++ K ++ compare_columns_post tn (reflect_table c) m) (t_cols c)) =
   match kfind c_name n (t_cols m) with
   | Some mc => match kfind c_name n (t_cols c) with Some cc => [alter_fix g cc mc] | None => [mc] end
   | None => []
   end.
 Proof.
   intros Hc Hm HK. rewrite ksel_run_cop, (ksel_nodup c_name n _ Hc). unfold compare_columns_pre, compare_columns_post.
+  cbn [reflect_table t_cols]. rewrite (keys_map c_name reflect_col reflect_col_name), flat_map_map.
   rewrite !run_app.
   rewrite (run_seg (cstep n) c_name _ n (t_cols m)); auto.
-  2:{ intros x _ Hx o Ho s'. destruct (kfind c_name (c_name x) (t_cols c)); simpl in Ho; [|tauto].
+  2:{ intros x _ Hx o Ho s'. rewrite (kfind_map c_name reflect_col reflect_col_name) in Ho.
+      destruct (kfind c_name (c_name x) (t_cols c)) as [c0|]; simpl in Ho; [|tauto].
       unfold alter_column in Ho. apply N.eqb_neq in Hx.
-      destruct (compare_nullable c0 x); destruct (compare_type_col g c0 x); simpl in Ho; try tauto;
+      destruct (compare_nullable (reflect_col c0) x); destruct (compare_type_col g (reflect_col c0) x);
+        destruct (compare_server_default_col g (reflect_col c0) x); simpl in Ho; try tauto;
         destruct Ho as [<-|[]]; simpl; rewrite Hx; auto. }
   rewrite (run_seg (cstep n) c_name _ n (t_cols m)); auto.
   2:{ intros x _ Hx o Ho s'. destruct (memN (c_name x) (keys c_name (t_cols c))); simpl in Ho; [tauto|].
       destruct Ho as [<-|[]]. simpl. apply N.eqb_neq in Hx. rewrite Hx. apply app_nil_r. }
   rewrite (run_id (cstep n) K). 2:{ intros; apply HK; auto. }
   rewrite (run_seg (cstep n) c_name _ n (t_cols c)); auto.
-  2:{ intros x _ Hx o Ho s'. destruct (memN (c_name x) (keys c_name (t_cols m))); simpl in Ho; [tauto|].
+  2:{ intros x _ Hx o Ho s'. cbn [reflect_col c_name] in Ho. destruct (memN (c_name x) (keys c_name (t_cols m))); simpl in Ho; [tauto|].
       destruct Ho as [<-|[]]. simpl. apply N.eqb_neq in Hx. rewrite Hx. auto. }
+  cbn [reflect_col c_name].
   destruct (kfind c_name n (t_cols m)) as [mc|] eqn:Em.
-  - destruct (kfind_some _ _ _ _ Em) as [_ Hmc]. rewrite Hmc.
+  - destruct (kfind_some _ _ _ _ Em) as [_ Hmc]. rewrite Hmc. rewrite (kfind_map c_name reflect_col reflect_col_name).
     rewrite (memN_keys c_name n (t_cols c)).
     destruct (kfind c_name n (t_cols c)) as [cc|] eqn:Ec.
     + destruct (kfind_some _ _ _ _ Ec) as [_ Hcc]. rewrite Hcc.
-      rewrite (memN_keys c_name n (t_cols m)), Em. simpl.
-      change (run (cstep n) [] (run (cstep n) (alter_column g tn cc mc) [cc]) = [alter_fix g cc mc]).
+      rewrite (memN_keys c_name n (t_cols m)), Em. cbn [option_map].
+      change (run (cstep n) [] (run (cstep n) (alter_column g tn (reflect_col cc) mc) [cc]) = [alter_fix g cc mc]).
       rewrite run_alter_column; auto.
     + simpl. rewrite Hmc, N.eqb_refl. reflexivity.
   - destruct (kfind c_name n (t_cols c)) as [cc|] eqn:Ec; auto.
@@ -295,9 +412,12 @@ Qed.
 
 (* ================================================================ which operations the comparators emit *)
 Definition col_op (tn:N) (o:op) : Prop :=
-  match o with OpAddColumn t _ | OpDropColumn t _ | OpAlterColumn t _ _ _ _ _ => t = tn | _ => False end.
+  match o with OpAddColumn t _ | OpDropColumn t _ | OpAlterColumn t _ _ _ _ _ _ _ => t = tn | _ => False end.
 Definition cons_op (tn:N) (o:op) : Prop :=
   match o with OpAddCons t _ | OpDropCons t _ _ => t = tn | _ => False end.
+
+Definition fk_op (tn:N) (o:op) : Prop :=
+  match o with OpAddFk t _ | OpDropFk t _ => t = tn | _ => False end.
 
 Lemma obj_added_In tn s c k o : In o (obj_added tn s c k) -> o = OpAddCons tn k.
 Proof. destruct k; simpl; [destruct (negb s); simpl; [tauto|]; destruct c; simpl|]; intuition. Qed.
@@ -315,11 +435,26 @@ Lemma pre_ops g tn c m o : In o (compare_columns_pre g tn c m) -> col_op tn o.
 Proof. unfold compare_columns_pre. rewrite in_app_iff, !in_flat_map. intros [[x [_ H]]|[x [_ H]]].
   - destruct (memN _ _); simpl in H; [tauto|]. destruct H as [<-|[]]. simpl; auto.
   - destruct (kfind _ _ _); [|inversion H]. unfold alter_column in H.
-    destruct (compare_nullable _ _); destruct (compare_type_col _ _ _); simpl in H; try tauto; destruct H as [<-|[]]; simpl; auto. Qed.
+    destruct (compare_nullable _ _); destruct (compare_type_col _ _ _); destruct (compare_server_default_col _ _ _);
+      simpl in H; try tauto; destruct H as [<-|[]]; simpl; auto. Qed.
 Lemma post_ops tn c m o : In o (compare_columns_post tn c m) -> col_op tn o.
 Proof. unfold compare_columns_post. rewrite in_flat_map. intros [x [_ H]].
   destruct (memN _ _); simpl in H; [tauto|]. destruct H as [<-|[]]. simpl; auto. Qed.
 
+Lemma cfk_ops tn ct mt o : In o (compare_foreign_keys tn ct mt) -> fk_op tn o.
+Proof. unfold compare_foreign_keys. destruct ct as [c|]; [|simpl; tauto]. destruct mt as [m|]; [|simpl; tauto].
+  rewrite in_app_iff, !in_flat_map. intros [[x [_ H]]|[x [_ H]]]; destruct (existsb _ _); simpl in H; try tauto;
+    destruct H as [<-|[]]; simpl; auto. Qed.
+Lemma fk_op_cstep tn o : fk_op tn o -> forall n s, cstep n o s = s.
+Proof. destruct o; simpl; tauto. Qed.
+Lemma fk_op_kstep tn o : fk_op tn o -> forall n s, kstep n o s = s.
+Proof. destruct o; simpl; tauto. Qed.
+Lemma fk_op_cop tn o : fk_op tn o -> forall s, apply_cop o s = s.
+Proof. destruct o; simpl; tauto. Qed.
+Lemma col_op_fop tn o : col_op tn o -> forall s, apply_fop o s = s.
+Proof. destruct o; simpl; tauto. Qed.
+Lemma cons_op_fop tn o : cons_op tn o -> forall s, apply_fop o s = s.
+Proof. destruct o; simpl; tauto. Qed.
 Lemma cons_op_cstep tn o : cons_op tn o -> forall n s, cstep n o s = s.
 Proof. destruct o; simpl; tauto. Qed.
 Lemma col_op_kstep tn o : col_op tn o -> forall n s, kstep n o s = s.
@@ -327,8 +462,9 @@ Proof. destruct o; simpl; tauto. Qed.
 Lemma cons_op_cop tn o : cons_op tn o -> forall s, apply_cop o s = s.
 Proof. destruct o; simpl; tauto. Qed.
 
-Lemma existing_ops g c m o : In o (existing_table g c m) -> col_op (t_name m) o \/ cons_op (t_name m) o.
-Proof. unfold existing_table. rewrite !in_app_iff. intros [H|[H|H]]; [left; eapply pre_ops|right; eapply ciu_ops|left; eapply post_ops]; eauto. Qed.
+Lemma existing_ops g c m o : In o (existing_table g c m) -> col_op (t_name m) o \/ cons_op (t_name m) o \/ fk_op (t_name m) o.
+Proof. unfold existing_table. rewrite !in_app_iff.
+  intros [H|[H|[H|H]]]; [left; eapply pre_ops|right; left; eapply ciu_ops|right; right; eapply cfk_ops|left; eapply post_ops]; eauto. Qed.
 
 (* ================================================================ "nothing to do" criteria *)
 Definition cols_ok (g:cfg) (tn:N) (cc mm:list col) : Prop :=
@@ -338,9 +474,19 @@ Definition cons_ok (cc mm:list cons) : Prop :=
   (forall mk, In mk mm -> exists x, kfind k_name (k_name mk) cc = Some x /\ Bool.eqb (is_ix x) (is_ix mk) = true /\ sig_equal mk x = true) /\
   (forall x, In x cc -> In (k_name x) (keys k_name mm)).
 
+(* foreign keys: the two sides carry the same set of signatures *)
+Definition fks_ok (fc fm:list fk) : Prop :=
+  (forall cf, In cf fc -> existsb (fk_sig_eqb cf) fm = true) /\ (forall mf, In mf fm -> existsb (fk_sig_eqb mf) fc = true).
+Lemma cfk_nil tn c m : fks_ok (t_fks c) (t_fks m) -> compare_foreign_keys tn (Some c) (Some m) = [].
+Proof. intros [H1 H2]. unfold compare_foreign_keys.
+  rewrite (flat_map_nil _ (t_fks c)). 2:{ intros x Hx. rewrite (H1 x Hx). auto. }
+  rewrite (flat_map_nil _ (t_fks m)). 2:{ intros x Hx. rewrite (H2 x Hx). auto. }
+  reflexivity. Qed.
+
 Lemma existing_table_nil g c m :
-  cols_ok g (t_name m) (t_cols c) (t_cols m) -> cons_ok (t_cons c) (t_cons m) -> existing_table g c m = [].
-Proof. intros [Hc1 Hc2] [Hk1 Hk2]. unfold existing_table, compare_columns_pre, compare_columns_post, compare_indexes_and_uniques.
+  cols_ok g (t_name m) (t_cols c) (t_cols m) -> cons_ok (t_cons c) (t_cons m) -> fks_ok (t_fks c) (t_fks m) -> existing_table g c m = [].
+Proof. intros [Hc1 Hc2] [Hk1 Hk2] Hf. unfold existing_table. rewrite (cfk_nil _ _ _ Hf).
+  unfold compare_columns_pre, compare_columns_post, compare_indexes_and_uniques.
   cbn [orb negb].
   rewrite (flat_map_nil _ (t_cols m)). 2:{ intros x Hx. destruct (Hc1 x Hx) as [y [Hy _]]. rewrite memN_keys, Hy. auto. }
   rewrite (flat_map_nil _ (t_cols m)). 2:{ intros x Hx. destruct (Hc1 x Hx) as [y [Hy Ha]]. rewrite Hy. auto. }
@@ -376,37 +522,114 @@ Proof. unfold cons_fix. destruct (Bool.eqb (is_ix ck) (is_ix mk)) eqn:E1; simpl.
   - destruct (sig_equal mk ck) eqn:E2; auto. rewrite eqb_reflx, sig_equal_refl. auto.
   - rewrite eqb_reflx, sig_equal_refl. auto. Qed.
 
+(* ================================================================ foreign keys: one pass fixes them *)
+Lemma fk_sig_eqb_spec a b : fk_sig_eqb a b = true <-> (f_cols a = f_cols b /\ f_rtable a = f_rtable b /\ f_rcols a = f_rcols b).
+Proof. unfold fk_sig_eqb. rewrite !andb_true_iff, !list_eqbN_eq, N.eqb_eq. tauto. Qed.
+Lemma fk_sig_eqb_refl a : fk_sig_eqb a a = true.
+Proof. apply fk_sig_eqb_spec. auto. Qed.
+Lemma fk_sig_eqb_sym a b : fk_sig_eqb a b = true -> fk_sig_eqb b a = true.
+Proof. rewrite !fk_sig_eqb_spec. intuition. Qed.
+
+Lemma drops_as_map tn (p:fk->bool) l :
+  flat_map (fun cf => if p cf then [] else [OpDropFk tn (f_name cf)]) l = map (OpDropFk tn) (map f_name (filter (fun f => negb (p f)) l)).
+Proof. induction l as [|a l IH]; simpl; auto. destruct (p a); simpl; congruence. Qed.
+Lemma adds_as_map tn (q:fk->bool) l :
+  flat_map (fun mf => if q mf then [] else [OpAddFk tn mf]) l = map (OpAddFk tn) (filter (fun f => negb (q f)) l).
+Proof. induction l as [|a l IH]; simpl; auto. destruct (q a); simpl; congruence. Qed.
+Lemma run_drops tn names S f : In f (run apply_fop (map (OpDropFk tn) names) S) <-> In f S /\ ~ In (f_name f) names.
+Proof. revert S; induction names as [|n names IH]; intros S; simpl. { unfold run; simpl. tauto. }
+  unfold run in *. simpl. rewrite IH. unfold kremove. rewrite filter_In, negb_true_iff, N.eqb_neq. intuition. Qed.
+Lemma run_adds tn L S : run apply_fop (map (OpAddFk tn) L) S = S ++ L.
+Proof. revert S; induction L as [|a L IH]; intros S; simpl. { unfold run; simpl. rewrite app_nil_r; auto. }
+  unfold run in *. simpl. rewrite IH, <- app_assoc. auto. Qed.
+
+Lemma fks_after tn c m : NoDup (keys f_name (t_fks c)) ->
+  fks_ok (run apply_fop (compare_foreign_keys tn (Some c) (Some m)) (t_fks c)) (t_fks m).
+Proof. intros Hnd. unfold compare_foreign_keys. rewrite drops_as_map, adds_as_map, run_app, run_adds.
+  set (fc := t_fks c) in *. set (fm := t_fks m).
+  assert (Hin: forall f, In f (run apply_fop (map (OpDropFk tn) (map f_name (filter (fun f => negb (existsb (fk_sig_eqb f) fm)) fc))) fc) <->
+                         In f fc /\ existsb (fk_sig_eqb f) fm = true).
+  { intros f. rewrite run_drops. split.
+    - intros [Hf Hn]. split; auto. destruct (existsb (fk_sig_eqb f) fm) eqn:E; auto. exfalso. apply Hn.
+      apply in_map. apply filter_In. rewrite E. auto.
+    - intros [Hf He]. split; auto. intros Hn. apply in_map_iff in Hn. destruct Hn as [f' [Hn Hf']]. apply filter_In in Hf'.
+      destruct Hf' as [Hf' Hp]. assert (f' = f).
+      { pose proof (kfind_nodup f_name f fc Hnd Hf) as K1. pose proof (kfind_nodup f_name f' fc Hnd Hf') as K2. rewrite Hn in K2. congruence. }
+      subst. rewrite He in Hp. discriminate. }
+  split.
+  - intros cf Hcf. apply in_app_iff in Hcf. destruct Hcf as [Hcf|Hcf].
+    + apply Hin in Hcf. tauto.
+    + apply filter_In in Hcf. destruct Hcf as [Hcf _]. apply existsb_exists. exists cf. split; auto. apply fk_sig_eqb_refl.
+  - intros mf Hmf. destruct (existsb (fk_sig_eqb mf) fc) eqn:E.
+    + apply existsb_exists in E. destruct E as [cf [Hcf Hs]]. apply existsb_exists. exists cf. split; auto.
+      apply in_app_iff. left. apply Hin. split; auto. apply existsb_exists. exists mf. split; auto. apply fk_sig_eqb_sym; auto.
+    + apply existsb_exists. exists mf. split; [|apply fk_sig_eqb_refl]. apply in_app_iff. right. apply filter_In. rewrite E. auto.
+Qed.
+Lemma fks_ok_refl fs : fks_ok fs fs.
+Proof. split; intros f Hf; apply existsb_exists; exists f; split; auto; apply fk_sig_eqb_refl. Qed.
+
 (* table-level well-formedness as used by the proofs *)
 Definition nd_table (t:table) : Prop := NoDup (keys c_name (t_cols t)) /\ NoDup (keys k_name (t_cons t)).
+(* the server defaults of the table are of the covered class *)
+Definition dok_table (t:table) : Prop := forall c, In c (t_cols t) -> dok_col c.
+
+Lemma cols_ok_reflect g tn cs mm : NoDup (keys c_name mm) ->
+  (forall n, match kfind c_name n mm with
+             | Some mc => exists x, ksel c_name n cs = [x] /\ alter_column g tn (reflect_col x) mc = []
+             | None => ksel c_name n cs = [] end) -> cols_ok g tn (map reflect_col cs) mm.
+Proof. intros Hm H. apply cols_ok_of_sel; auto. intros n. specialize (H n). rewrite (ksel_map c_name reflect_col reflect_col_name).
+  destruct (kfind c_name n mm) as [mc|].
+  - destruct H as [x [-> Hx]]. exists (reflect_col x). auto.
+  - rewrite H. auto. Qed.
 
 (* ================================================================ an existing table converges in one pass *)
-Lemma existing_converge g c m : nd_table c -> nd_table m ->
-  existing_table g (run apply_top (existing_table g c m) c) m = [].
-Proof. intros [Hcc Hck] [Hmc Hmk]. apply existing_table_nil.
-  - rewrite cols_run_top. unfold existing_table. apply cols_ok_of_sel; auto. intros n.
-    rewrite cols_after; auto. 2:{ intros o Ho. eapply cons_op_cstep, ciu_ops; eauto. }
-    destruct (kfind c_name n (t_cols m)) as [mc|]; auto.
+Lemma existing_converge g c m : nd_table c -> nd_table m -> dok_table m -> NoDup (keys f_name (t_fks c)) ->
+  existing_table g (reflect_table (run apply_top (existing_table g (reflect_table c) m) c)) m = [].
+Proof. intros [Hcc Hck] [Hmc Hmk] Hok Hfk.
+  set (pre := compare_columns_pre g (t_name m) (reflect_table c) m).
+  set (ciu := compare_indexes_and_uniques (t_name m) (Some (reflect_table c)) (Some m)).
+  set (cfk := compare_foreign_keys (t_name m) (Some (reflect_table c)) (Some m)).
+  set (post := compare_columns_post (t_name m) (reflect_table c) m).
+  assert (Hpre: forall o, In o pre -> col_op (t_name m) o) by (intros o Ho; eapply pre_ops; eauto).
+  assert (Hpost: forall o, In o post -> col_op (t_name m) o) by (intros o Ho; eapply post_ops; eauto).
+  assert (Hciu: forall o, In o ciu -> cons_op (t_name m) o) by (intros o Ho; eapply ciu_ops; eauto).
+  assert (Hcfk: forall o, In o cfk -> fk_op (t_name m) o) by (intros o Ho; eapply cfk_ops; eauto).
+  apply existing_table_nil.
+  - cbn [reflect_table t_cols]. rewrite cols_run_top. unfold existing_table. fold pre ciu cfk post.
+    replace (pre ++ ciu ++ cfk ++ post) with (pre ++ (ciu ++ cfk) ++ post) by (rewrite <- !app_assoc; reflexivity).
+    apply cols_ok_reflect; auto. intros n. unfold pre, post.
+    rewrite cols_after; auto.
+    2:{ intros o Ho. apply in_app_iff in Ho. destruct Ho as [Ho|Ho]; [eapply cons_op_cstep|eapply fk_op_cstep]; eauto. }
+    destruct (kfind c_name n (t_cols m)) as [mc|] eqn:Em; auto.
+    assert (Hd: dok_col mc) by (apply Hok; apply kfind_some in Em; tauto).
     destruct (kfind c_name n (t_cols c)) as [cc|]; eexists; split; eauto.
-    + apply alter_column_fix.
-    + apply alter_column_refl.
-  - rewrite cons_run_top. unfold existing_table. apply cons_ok_of_sel; auto. intros n.
-    rewrite cons_after; auto.
-    2:{ intros o Ho. eapply col_op_kstep, pre_ops; eauto. } 2:{ intros o Ho. eapply col_op_kstep, post_ops; eauto. }
+    + apply alter_column_fix; auto.
+    + apply alter_column_refl; auto.
+  - cbn [reflect_table t_cons]. rewrite cons_run_top. unfold existing_table. fold pre ciu cfk post. apply cons_ok_of_sel; auto. intros n.
+    pose proof (cons_after (t_name m) (reflect_table c) m pre (cfk ++ post) n) as HA.
+    cbn [reflect_table t_cons] in HA. fold ciu in HA. rewrite HA; auto.
+    2:{ intros o Ho. eapply col_op_kstep; eauto. }
+    2:{ intros o Ho. apply in_app_iff in Ho. destruct Ho as [Ho|Ho]; [eapply fk_op_kstep|eapply col_op_kstep]; eauto. }
     destruct (kfind k_name n (t_cons m)) as [mk|]; auto.
     destruct (kfind k_name n (t_cons c)) as [ck|]; eexists; split; eauto.
     + apply cons_fix_ok.
-    + rewrite eqb_reflx, sig_equal_refl. auto. Qed.
+    + rewrite eqb_reflx, sig_equal_refl. auto.
+  - cbn [reflect_table t_fks]. rewrite fks_run_top. unfold existing_table. fold pre ciu cfk post. rewrite !run_app.
+    rewrite (run_id apply_fop pre). 2:{ intros o Ho. eapply col_op_fop; eauto. }
+    rewrite (run_id apply_fop ciu). 2:{ intros o Ho. eapply cons_op_fop; eauto. }
+    rewrite (run_id apply_fop post). 2:{ intros o Ho. eapply col_op_fop; eauto. }
+    unfold cfk. change (t_fks c) with (t_fks (reflect_table c)). apply fks_after. auto.
+Qed.
 
-Lemma cols_ok_refl g tn cs : NoDup (keys c_name cs) -> cols_ok g tn cs cs.
-Proof. intros H. split.
-  - intros mc Hin. exists mc. rewrite kfind_nodup; auto. split; auto. apply alter_column_refl.
-  - intros x Hin. apply in_map; auto. Qed.
+Lemma cols_ok_refl g tn cs : NoDup (keys c_name cs) -> (forall c, In c cs -> dok_col c) -> cols_ok g tn (map reflect_col cs) cs.
+Proof. intros H Hok. apply cols_ok_reflect; auto. intros n. rewrite (ksel_nodup c_name n _ H).
+  destruct (kfind c_name n cs) as [mc|] eqn:E; auto. exists mc. split; auto. apply alter_column_refl. apply Hok. apply kfind_some in E. tauto. Qed.
 Lemma cons_ok_refl ks : NoDup (keys k_name ks) -> cons_ok ks ks.
 Proof. intros H. split.
   - intros mk Hin. exists mk. rewrite kfind_nodup; auto. rewrite eqb_reflx, sig_equal_refl. auto.
   - intros x Hin. apply in_map; auto. Qed.
-Lemma existing_quiet g m : nd_table m -> existing_table g m m = [].
-Proof. intros [H1 H2]. apply existing_table_nil; [apply cols_ok_refl|apply cons_ok_refl]; auto. Qed.
+Lemma existing_quiet g m : nd_table m -> dok_table m -> existing_table g (reflect_table m) m = [].
+Proof. intros [H1 H2] Hok. apply existing_table_nil; [apply cols_ok_refl|apply cons_ok_refl|apply fks_ok_refl]; auto. Qed.
 
 (* ================================================================ a created table needs nothing more *)
 Lemma created_after m n : NoDup (keys k_name (t_cons m)) ->
@@ -420,15 +643,18 @@ Proof. intros Hm. rewrite ksel_run_kop, ksel_filter, (ksel_nodup k_name n _ Hm).
   destruct (kfind k_name n (t_cons m)) as [mk|] eqn:E; auto.
   destruct (kfind_some _ _ _ _ E) as [_ Hk]. destruct mk; cbn; auto. cbn in Hk. rewrite Hk, N.eqb_refl. auto. Qed.
 
-Lemma created_quiet g m : nd_table m ->
-  existing_table g (run apply_top (compare_indexes_and_uniques (t_name m) None (Some m)) (create_table_of m)) m = [].
-Proof. intros [Hc Hk]. apply existing_table_nil.
-  - rewrite cols_run_top. cbn [create_table_of t_cols].
+Lemma created_quiet g m : nd_table m -> dok_table m ->
+  existing_table g (reflect_table (run apply_top (compare_indexes_and_uniques (t_name m) None (Some m)) (create_table_of m))) m = [].
+Proof. intros [Hc Hk] Hok. apply existing_table_nil.
+  - cbn [reflect_table t_cols]. rewrite cols_run_top. cbn [create_table_of t_cols].
     rewrite (run_id apply_cop). 2:{ intros o Ho. eapply cons_op_cop, ciu_ops; eauto. }
     apply cols_ok_refl; auto.
-  - rewrite cons_run_top. cbn [create_table_of t_cons]. apply cons_ok_of_sel; auto. intros n.
+  - cbn [reflect_table t_cons]. rewrite cons_run_top. cbn [create_table_of t_cons]. apply cons_ok_of_sel; auto. intros n.
     rewrite created_after; auto. destruct (kfind k_name n (t_cons m)) as [mk|]; auto.
-    exists mk. rewrite eqb_reflx, sig_equal_refl. auto. Qed.
+    exists mk. rewrite eqb_reflx, sig_equal_refl. auto.
+  - cbn [reflect_table t_fks]. rewrite fks_run_top. cbn [create_table_of t_fks].
+    rewrite (run_id apply_fop). 2:{ intros o Ho. eapply cons_op_fop, ciu_ops; eauto. }
+    apply fks_ok_refl. Qed.
 
 (* ================================================================ the schema level *)
 Lemma tstep_other n o s : op_table o <> n -> tstep n o s = s.
@@ -440,45 +666,54 @@ Lemma removed_ops c o : In o (removed_table c) -> op_table o = t_name c.
 Proof. unfold removed_table. rewrite in_app_iff. intros [H|[<-|[]]]; [|reflexivity]. apply ciu_ops in H. destruct o; simpl in *; tauto. Qed.
 Lemma existing_ops_table g c m o : In o (existing_table g c m) -> op_table o = t_name m.
 Proof. intros H. apply existing_ops in H. destruct o; simpl in *; tauto. Qed.
+Lemma wf_table_ndf t : wf_table t = true -> NoDup (keys f_name (t_fks t)).
+Proof. unfold wf_table. rewrite !andb_true_iff. intros [[[[[H1 H2] H3] _] _] _]. apply nodupb_NoDup; auto. Qed.
+Lemma wf_schema_ndf S : wf_schemab S = true -> forall t, In t S -> NoDup (keys f_name (t_fks t)).
+Proof. unfold wf_schemab. rewrite andb_true_iff, forallb_forall. intros [H1 H2] t Ht. apply wf_table_ndf; auto. Qed.
 
 (* operations on the inside of table n act on the selected tables one by one *)
-Lemma run_tstep_own n L s : (forall o, In o L -> col_op n o \/ cons_op n o) ->
+Lemma run_tstep_own n L s : (forall o, In o L -> col_op n o \/ cons_op n o \/ fk_op n o) ->
   run (tstep n) L s = map (run apply_top L) s.
 Proof. revert s; induction L as [|o L IH]; intros s H.
   - simpl. rewrite map_id. auto.
   - unfold run in *. simpl. rewrite IH. 2:{ intros; apply H; simpl; auto. }
     assert (Ho: tstep n o s = map (apply_top o) s).
-    { destruct (H o (or_introl eq_refl)) as [Hc|Hc]; destruct o; simpl in Hc; try tauto; subst; simpl; rewrite N.eqb_refl; auto. }
+    { destruct (H o (or_introl eq_refl)) as [Hc|[Hc|Hc]]; destruct o; simpl in Hc; try tauto; subst; simpl; rewrite N.eqb_refl; auto. }
     rewrite Ho, map_map. auto. Qed.
 
+Lemma reflect_table_name t : t_name (reflect_table t) = t_name t. Proof. reflexivity. Qed.
+
 Lemma tables_after g A B n : NoDup (keys t_name A) -> NoDup (keys t_name B) ->
-  ksel t_name n (apply_ops (compare_tables g A B) A) =
+  ksel t_name n (apply_ops (compare_tables g (reflect_sqlite A) B) A) =
   match kfind t_name n B with
   | Some m => match kfind t_name n A with
-              | Some c => [run apply_top (existing_table g c m) c]
+              | Some c => [run apply_top (existing_table g (reflect_table c) m) c]
               | None => [run apply_top (compare_indexes_and_uniques (t_name m) None (Some m)) (create_table_of m)]
               end
   | None => []
   end.
-Proof. intros HA HB. rewrite ksel_apply_ops, (ksel_nodup t_name n _ HA). unfold compare_tables. rewrite !run_app.
+Proof. intros HA HB. rewrite ksel_apply_ops, (ksel_nodup t_name n _ HA). unfold compare_tables, reflect_sqlite.
+  rewrite (keys_map t_name reflect_table reflect_table_name), flat_map_map. rewrite !run_app.
   rewrite (run_seg (tstep n) t_name _ n B); auto.
-  2:{ intros x _ Hx o Ho s'. destruct (kfind t_name (t_name x) A); [|inversion Ho].
+  2:{ intros x _ Hx o Ho s'. destruct (kfind t_name (t_name x) (map reflect_table A)); [|inversion Ho].
       apply tstep_other. apply existing_ops_table in Ho. congruence. }
   rewrite (run_seg (tstep n) t_name _ n A); auto.
-  2:{ intros x _ Hx o Ho s'. destruct (memN _ _); [inversion Ho|]. apply tstep_other. apply removed_ops in Ho. congruence. }
+  2:{ intros x _ Hx o Ho s'. cbn [reflect_table t_name] in Ho. destruct (memN _ _); [inversion Ho|]. apply tstep_other.
+      apply removed_ops in Ho. rewrite Ho. auto. }
   rewrite (run_seg (tstep n) t_name _ n B); auto.
   2:{ intros x _ Hx o Ho s'. destruct (memN _ _); [inversion Ho|]. apply tstep_other. apply added_ops in Ho. congruence. }
+  cbn [reflect_table t_name].
   destruct (kfind t_name n B) as [m|] eqn:Em.
-  - destruct (kfind_some _ _ _ _ Em) as [_ Hm]. rewrite Hm, (memN_keys t_name n A).
+  - destruct (kfind_some _ _ _ _ Em) as [_ Hm]. rewrite Hm, (memN_keys t_name n A), (kfind_map t_name reflect_table reflect_table_name).
     destruct (kfind t_name n A) as [c|] eqn:Ec.
-    + destruct (kfind_some _ _ _ _ Ec) as [_ Hc]. rewrite Hc, (memN_keys t_name n B), Em.
-      change (run (tstep n) (existing_table g c m) [c] = [run apply_top (existing_table g c m) c]).
+    + destruct (kfind_some _ _ _ _ Ec) as [_ Hc]. rewrite Hc, (memN_keys t_name n B), Em. cbn [option_map].
+      change (run (tstep n) (existing_table g (reflect_table c) m) [c] = [run apply_top (existing_table g (reflect_table c) m) c]).
       rewrite run_tstep_own; auto. intros o Ho. rewrite <- Hm. eapply existing_ops; eauto.
     + unfold added_table. rewrite Hm.
       change (run (tstep n) (compare_indexes_and_uniques n None (Some m)) (tstep n (OpCreateTable (create_table_of m)) [])
               = [run apply_top (compare_indexes_and_uniques n None (Some m)) (create_table_of m)]).
       cbn [tstep create_table_of t_name app]. rewrite Hm, N.eqb_refl.
-      rewrite run_tstep_own; auto. intros o Ho. right. eapply ciu_ops; eauto.
+      rewrite run_tstep_own; auto. intros o Ho. right; left. eapply ciu_ops; eauto.
   - destruct (kfind t_name n A) as [c|] eqn:Ec; auto.
     destruct (kfind_some _ _ _ _ Ec) as [_ Hc]. rewrite Hc, (memN_keys t_name n B), Em.
     unfold removed_table. rewrite run_app. cbn. rewrite Hc, N.eqb_refl. reflexivity. Qed.
@@ -495,30 +730,34 @@ Proof. intros H1 H2. unfold compare_tables.
 
 (* ================================================================ well-formedness, reflection *)
 Lemma wf_table_nd t : wf_table t = true -> nd_table t.
-Proof. unfold wf_table. rewrite !andb_true_iff. intros [[[H1 H2] _] _]. split; apply nodupb_NoDup; auto. Qed.
+Proof. unfold wf_table. rewrite !andb_true_iff. intros [[[[[H1 H2] H3] _] _] _]. split; apply nodupb_NoDup; auto. Qed.
 Lemma wf_schema_nd S : wf_schemab S = true -> NoDup (keys t_name S) /\ forall t, In t S -> nd_table t.
 Proof. unfold wf_schemab. rewrite andb_true_iff, forallb_forall. intros [H1 H2]. split; [apply nodupb_NoDup; auto|].
   intros t Ht. apply wf_table_nd; auto. Qed.
 
-Lemma reflect_sqlite_id S : reflect_sqlite S = S.
-Proof. unfold reflect_sqlite. rewrite <- (map_id S) at 2. apply map_ext. intros [n cs ks]. unfold reflect_table. simpl.
-  f_equal; apply map_id. Qed.
+Lemma defaults_ok_dok S : defaults_ok S = true -> forall t, In t S -> dok_table t.
+Proof. unfold defaults_ok. rewrite forallb_forall. intros H t Ht c Hc. specialize (H t Ht). rewrite forallb_forall in H.
+  specialize (H c Hc). unfold dok_col. destruct (c_default c); auto. Qed.
 
 (* ================================================================ C06 *)
-Theorem diff_quiet g A : wf_schemab A = true -> diff g (reflect_sqlite A) A = [].
-Proof. intros H. apply wf_schema_nd in H. destruct H as [Hn Ht]. rewrite reflect_sqlite_id. unfold diff.
+Theorem diff_quiet g A : wf_schemab A = true -> defaults_ok A = true -> diff g (reflect_sqlite A) A = [].
+Proof. intros H Hd. apply wf_schema_nd in H. destruct H as [Hn Ht]. pose proof (defaults_ok_dok _ Hd) as Hok. unfold diff.
   apply compare_tables_nil.
-  - intros m Hm. exists m. rewrite kfind_nodup; auto. split; auto. apply existing_quiet; auto.
-  - intros c Hc. apply in_map; auto. Qed.
+  - intros m Hm. exists (reflect_table m). unfold reflect_sqlite. rewrite (kfind_map t_name reflect_table reflect_table_name), kfind_nodup; auto.
+    split; auto. apply existing_quiet; auto.
+  - intros c Hc. unfold reflect_sqlite in Hc. apply in_map_iff in Hc. destruct Hc as [c0 [<- Hc0]]. cbn [reflect_table t_name].
+    unfold keys. apply in_map; auto. Qed.
 
-Theorem diff_converge g A B : wf_schemab A = true -> wf_schemab B = true ->
+Theorem diff_converge g A B : wf_schemab A = true -> wf_schemab B = true -> defaults_ok B = true ->
   diff g (reflect_sqlite (apply_ops (diff g (reflect_sqlite A) B) A)) B = [].
-Proof. intros HA HB. apply wf_schema_nd in HA. apply wf_schema_nd in HB. destruct HA as [HAn HAt], HB as [HBn HBt].
-  rewrite !reflect_sqlite_id. unfold diff. apply compare_tables_nil.
-  - intros m Hm. rewrite kfind_hd, tables_after; auto. rewrite (kfind_nodup t_name m B); auto.
+Proof. intros HA HB Hd. pose proof (wf_schema_ndf _ HA) as HAf. apply wf_schema_nd in HA. apply wf_schema_nd in HB. destruct HA as [HAn HAt], HB as [HBn HBt].
+  pose proof (defaults_ok_dok _ Hd) as Hok. unfold diff. apply compare_tables_nil.
+  - intros m Hm. unfold reflect_sqlite at 1. rewrite (kfind_map t_name reflect_table reflect_table_name), kfind_hd, tables_after; auto.
+    rewrite (kfind_nodup t_name m B); auto.
     destruct (kfind t_name (t_name m) A) as [c|] eqn:Ec; eexists; split; try reflexivity.
-    + apply existing_converge; auto. apply kfind_some in Ec. apply HAt; tauto.
+    + apply kfind_some in Ec. apply existing_converge; auto; [apply HAt|apply HAf]; tauto.
     + apply created_quiet; auto.
-  - intros c Hc. assert (Hs: In c (ksel t_name (t_name c) (apply_ops (compare_tables g A B) A))) by (apply ksel_In; auto).
-    rewrite tables_after in Hs; auto. destruct (kfind t_name (t_name c) B) as [m|] eqn:Em; [|inversion Hs].
+  - intros c Hc. unfold reflect_sqlite at 1 in Hc. apply in_map_iff in Hc. destruct Hc as [c0 [<- Hc0]]. cbn [reflect_table t_name].
+    assert (Hs: In c0 (ksel t_name (t_name c0) (apply_ops (compare_tables g (reflect_sqlite A) B) A))) by (apply ksel_In; auto).
+    rewrite tables_after in Hs; auto. destruct (kfind t_name (t_name c0) B) as [m|] eqn:Em; [|inversion Hs].
     apply kfind_some in Em. destruct Em as [E1 E2]. unfold keys. rewrite <- E2. apply in_map; auto. Qed.
